@@ -40,7 +40,7 @@ type vfHxScript struct {
 	FailEvery int `json:"failevery"`
 }
 
-var errVfHxInjected = errors.New("injected transport failure") //nolint:gochecknoglobals
+var errVfHxInjected error = vfInjErr{"injected transport failure"} //nolint:gochecknoglobals
 
 const vfHxDecoyURI = "urn:ietf:params:rtp-hdrext:sdes:mid"
 
